@@ -1,5 +1,406 @@
-//! `gev ast`: walk the public AST and emit every stored location (C16). Filled in below.
-use serde_json::{json, Value};
-pub fn run_case(case: &Value) -> Value {
-    json!({"id": case.get("id").cloned().unwrap_or(Value::Null), "todo": true})
+//! `gev ast`: walk the public AST returned by `parse::parse` and emit every stored location as a tree of
+//! located items (C16). The relations between an item and its source slice are checked by the monitor in
+//! /verif/lib/js; this module only reports what the AST stores.
+use crate::tmpl::diag_json;
+use crate::util::guarded;
+use glass_easel_template_compiler::parse::expr::{ArrayFieldKind, Expression, ObjectFieldKind};
+use glass_easel_template_compiler::parse::tag::*;
+use glass_easel_template_compiler::parse::{Position, TemplateStructure};
+use serde_json::{json, Value as J};
+use std::ops::Range;
+
+fn loc(r: &Range<Position>) -> J {
+    json!([r.start.line, r.start.utf16_col, r.end.line, r.end.utf16_col])
+}
+
+fn item(k: &str, l: &Range<Position>, extra: J, children: Vec<J>) -> J {
+    let mut o = json!({"k": k, "loc": loc(l), "children": children});
+    if let (Some(o), Some(e)) = (o.as_object_mut(), extra.as_object()) {
+        for (k, v) in e {
+            o.insert(k.clone(), v.clone());
+        }
+    }
+    o
+}
+
+fn tok(k: &str, l: &Range<Position>, text: &str) -> J {
+    json!({"k": k, "loc": loc(l), "text": text, "children": []})
+}
+
+fn expr(e: &Expression) -> J {
+    let l = e.location();
+    macro_rules! bin {
+        ($op:expr, $left:expr, $right:expr, $loc:expr) => {
+            item("binary", &l, json!({"op": $op, "computed": true}), vec![expr($left), tok("op", $loc, $op), expr($right)])
+        };
+    }
+    macro_rules! un {
+        ($op:expr, $value:expr, $loc:expr) => {
+            // `location` of a unary node is the operator's location
+            item("unary", $loc, json!({"op": $op, "own": "operator"}), vec![])
+                .as_object()
+                .map(|o| {
+                    let mut o = o.clone();
+                    o.insert("operand".into(), expr($value));
+                    J::Object(o)
+                })
+                .unwrap()
+        };
+    }
+    match e {
+        Expression::ScopeRef { location, index } => item("scope_ref", location, json!({"index": index}), vec![]),
+        Expression::DataField { name, location } => item("data_field", location, json!({"name": name.as_str()}), vec![]),
+        Expression::ToStringWithoutUndefined { value, location } => {
+            item("to_string", location, json!({"synthetic": true}), vec![]).as_object().map(|o| { let mut o = o.clone(); o.insert("operand".into(), expr(value)); J::Object(o) }).unwrap()
+        }
+        Expression::LitUndefined { location } => tok("keyword", location, "undefined"),
+        Expression::LitNull { location } => tok("keyword", location, "null"),
+        Expression::LitStr { value, location } => item("lit_str", location, json!({"value": value.as_str()}), vec![]),
+        Expression::LitInt { value, location } => item("lit_num", location, json!({"value": *value as f64, "int": value.to_string()}), vec![]),
+        Expression::LitFloat { value, location } => item("lit_num", location, json!({"value": if value.is_finite() { json!(value) } else { json!(value.to_string()) }}), vec![]),
+        Expression::LitBool { value, location } => tok("keyword", location, if *value { "true" } else { "false" }),
+        Expression::LitObj { fields, brace_location } => {
+            let mut ch = vec![tok("bracket", &brace_location.0, "{")];
+            for f in fields {
+                match f {
+                    ObjectFieldKind::Named { name, location, colon_location, value } => {
+                        ch.push(item("obj_key", location, json!({"name": name.as_str()}), vec![]));
+                        if let Some(c) = colon_location {
+                            ch.push(tok("op", c, ":"));
+                            ch.push(expr(value));
+                        }
+                    }
+                    ObjectFieldKind::Spread { location, value } => {
+                        ch.push(tok("op", location, "..."));
+                        ch.push(expr(value));
+                    }
+                }
+            }
+            ch.push(tok("bracket", &brace_location.1, "}"));
+            item("lit_obj", &l, json!({"computed": true, "implicit_braces": brace_location.0.start == brace_location.0.end}), ch)
+        }
+        Expression::LitArr { fields, bracket_location } => {
+            let mut ch = vec![tok("bracket", &bracket_location.0, "[")];
+            for f in fields {
+                match f {
+                    ArrayFieldKind::Normal { value } => ch.push(expr(value)),
+                    ArrayFieldKind::Spread { location, value } => {
+                        ch.push(tok("op", location, "..."));
+                        ch.push(expr(value));
+                    }
+                    ArrayFieldKind::EmptySlot => {}
+                }
+            }
+            ch.push(tok("bracket", &bracket_location.1, "]"));
+            item("lit_arr", &l, json!({"computed": true}), ch)
+        }
+        Expression::StaticMember { obj, field_name, dot_location, field_location } => item(
+            "static_member",
+            &l,
+            json!({"computed": true}),
+            vec![expr(obj), tok("op", dot_location, "."), item("member_name", field_location, json!({"name": field_name.as_str()}), vec![])],
+        ),
+        Expression::DynamicMember { obj, field_name, bracket_location } => item(
+            "dynamic_member",
+            &l,
+            json!({"computed": true}),
+            vec![expr(obj), tok("bracket", &bracket_location.0, "["), expr(field_name), tok("bracket", &bracket_location.1, "]")],
+        ),
+        Expression::FuncCall { func, args, paren_location } => {
+            let mut ch = vec![expr(func), tok("bracket", &paren_location.0, "(")];
+            for a in args {
+                ch.push(expr(a));
+            }
+            ch.push(tok("bracket", &paren_location.1, ")"));
+            item("call", &l, json!({"computed": true}), ch)
+        }
+        Expression::Reverse { value, location } => un!("!", value, location),
+        Expression::BitReverse { value, location } => un!("~", value, location),
+        Expression::Positive { value, location } => un!("+", value, location),
+        Expression::Negative { value, location } => un!("-", value, location),
+        Expression::TypeOf { value, location } => un!("typeof", value, location),
+        Expression::Void { value, location } => un!("void", value, location),
+        Expression::Multiply { left, right, location } => bin!("*", left, right, location),
+        Expression::Divide { left, right, location } => bin!("/", left, right, location),
+        Expression::Remainer { left, right, location } => bin!("%", left, right, location),
+        Expression::Plus { left, right, location } => bin!("+", left, right, location),
+        Expression::Minus { left, right, location } => bin!("-", left, right, location),
+        Expression::LeftShift { left, right, location } => bin!("<<", left, right, location),
+        Expression::RightShift { left, right, location } => bin!(">>", left, right, location),
+        Expression::UnsignedRightShift { left, right, location } => bin!(">>>", left, right, location),
+        Expression::Lt { left, right, location } => bin!("<", left, right, location),
+        Expression::Gt { left, right, location } => bin!(">", left, right, location),
+        Expression::Lte { left, right, location } => bin!("<=", left, right, location),
+        Expression::Gte { left, right, location } => bin!(">=", left, right, location),
+        Expression::InstanceOf { left, right, location } => bin!("instanceof", left, right, location),
+        Expression::Eq { left, right, location } => bin!("==", left, right, location),
+        Expression::Ne { left, right, location } => bin!("!=", left, right, location),
+        Expression::EqFull { left, right, location } => bin!("===", left, right, location),
+        Expression::NeFull { left, right, location } => bin!("!==", left, right, location),
+        Expression::BitAnd { left, right, location } => bin!("&", left, right, location),
+        Expression::BitXor { left, right, location } => bin!("^", left, right, location),
+        Expression::BitOr { left, right, location } => bin!("|", left, right, location),
+        Expression::LogicAnd { left, right, location } => bin!("&&", left, right, location),
+        Expression::LogicOr { left, right, location } => bin!("||", left, right, location),
+        Expression::NullishCoalescing { left, right, location } => bin!("??", left, right, location),
+        Expression::Cond { cond, true_br, false_br, question_location, colon_location } => item(
+            "cond",
+            &l,
+            json!({"computed": true}),
+            vec![expr(cond), tok("op", question_location, "?"), expr(true_br), tok("op", colon_location, ":"), expr(false_br)],
+        ),
+        #[allow(unreachable_patterns)]
+        _ => json!({"k": "unclassified-expression", "children": []}),
+    }
+}
+
+fn value(v: &Value, ctx: &str) -> J {
+    match v {
+        Value::Static { value, location, .. } => item("static_value", location, json!({"value": value.as_str(), "ctx": ctx}), vec![]),
+        Value::Dynamic { expression, double_brace_location, .. } => item(
+            "dynamic_value",
+            &v.location(),
+            json!({"ctx": ctx}),
+            vec![tok("bracket", &double_brace_location.0, "{{"), expr(expression), tok("bracket", &double_brace_location.1, "}}")],
+        ),
+        #[allow(unreachable_patterns)]
+        _ => json!({"k": "unclassified-value", "children": []}),
+    }
+}
+
+fn ident(k: &str, i: &Ident, extra: J) -> J {
+    let mut e = json!({"name": i.name.as_str()});
+    if let (Some(o), Some(x)) = (e.as_object_mut(), extra.as_object()) {
+        for (k, v) in x {
+            o.insert(k.clone(), v.clone());
+        }
+    }
+    item(k, &i.location, e, vec![])
+}
+
+fn str_name(k: &str, s: &StrName, extra: J) -> J {
+    let mut e = json!({"value": s.name.as_str()});
+    if let (Some(o), Some(x)) = (e.as_object_mut(), extra.as_object()) {
+        for (k, v) in x {
+            o.insert(k.clone(), v.clone());
+        }
+    }
+    item(k, &s.location, e, vec![])
+}
+
+fn attr_item(fam: &str, prefix_location: Option<&Range<Position>>, name: &Ident, v: Option<&Value>) -> J {
+    let mut ch = vec![];
+    if let Some(p) = prefix_location {
+        ch.push(json!({"k": "attr_prefix", "loc": loc(p), "fam": fam, "children": []}));
+    }
+    ch.push(ident("attr_name", name, json!({"fam": fam})));
+    if let Some(v) = v {
+        ch.push(value(v, "attr"));
+    }
+    json!({"k": "attr", "fam": fam, "children": ch})
+}
+
+fn static_attr_item(fam: &str, a: &StaticAttribute) -> J {
+    let mut ch = vec![];
+    if let Some(p) = a.prefix_location.as_ref() {
+        ch.push(json!({"k": "attr_prefix", "loc": loc(p), "fam": fam, "children": []}));
+    }
+    ch.push(ident("attr_name", &a.name, json!({"fam": fam})));
+    ch.push(str_name("static_attr_value", &a.value, json!({"fam": fam})));
+    json!({"k": "attr", "fam": fam, "children": ch})
+}
+
+fn named_value(fam: &str, name_loc: &Range<Position>, v: &Value) -> J {
+    json!({"k": "attr", "fam": fam, "children": [json!({"k": "attr_name_span", "loc": loc(name_loc), "fam": fam, "children": []}), value(v, "attr")]})
+}
+
+fn common(c: &CommonElementAttributes, out: &mut Vec<J>) {
+    if let Some((l, v)) = c.id.as_ref() {
+        out.push(named_value("id", l, v));
+    }
+    if let Some((l, v)) = c.slot.as_ref() {
+        out.push(named_value("slot", l, v));
+    }
+    for a in c.slot_value_refs.iter() {
+        out.push(static_attr_item("slot-value", a));
+    }
+    for e in c.event_bindings.iter() {
+        let fam = match (e.is_catch, e.is_mut, e.is_capture) {
+            (false, false, false) => "bind",
+            (true, _, false) => "catch",
+            (false, true, false) => "mut-bind",
+            (false, false, true) => "capture-bind",
+            (true, _, true) => "capture-catch",
+            (false, true, true) => "capture-mut-bind",
+        };
+        out.push(attr_item(fam, Some(&e.prefix_location), &e.name, e.value.as_ref()));
+    }
+    for a in c.data.iter() {
+        out.push(attr_item("data", a.prefix_location.as_ref(), &a.name, a.value.as_ref()));
+    }
+    for a in c.marks.iter() {
+        out.push(attr_item("mark", a.prefix_location.as_ref(), &a.name, a.value.as_ref()));
+    }
+}
+
+fn tag_location(t: &TagLocation) -> J {
+    json!({
+        "start_open": loc(&t.start.0), "start_close": loc(&t.start.1), "close": loc(&t.close),
+        "end": t.end.as_ref().map(|(a, b)| json!([loc(a), loc(b)])),
+    })
+}
+
+fn nodes(list: &[Node]) -> Vec<J> {
+    list.iter().map(node).collect()
+}
+
+fn node(n: &Node) -> J {
+    match n {
+        Node::Text(v) => value(v, "text"),
+        Node::Comment(c) => item("comment", &c.location, json!({"content": c.content}), vec![]),
+        Node::UnknownMetaTag(t) => item("meta", &t.location, json!({}), vec![]),
+        Node::Element(e) => element(e),
+        #[allow(unreachable_patterns)]
+        _ => json!({"k": "unclassified-node", "children": []}),
+    }
+}
+
+fn element(e: &Element) -> J {
+    let l = e.location();
+    let tl = tag_location(&e.tag_location);
+    let mut attrs: Vec<J> = vec![];
+    let mut kids: Vec<J> = vec![];
+    let kind;
+    let mut extra = json!({});
+    match &e.kind {
+        ElementKind::Normal { tag_name, attributes, class, style, change_attributes, worklet_attributes, children, generics, extra_attr, common: c, .. } => {
+            kind = "normal";
+            attrs.push(ident("tag_name", tag_name, json!({})));
+            for a in attributes {
+                match &a.prefix {
+                    NormalAttributePrefix::None => attrs.push(attr_item("plain", None, &a.name, a.value.as_ref())),
+                    NormalAttributePrefix::Model(p) => attrs.push(attr_item("model", Some(p), &a.name, a.value.as_ref())),
+                }
+            }
+            if let ClassAttribute::String(l, v) = class {
+                attrs.push(named_value("class", l, v));
+            }
+            if let StyleAttribute::String(l, v) = style {
+                attrs.push(named_value("style", l, v));
+            }
+            for a in change_attributes {
+                attrs.push(attr_item("change", a.prefix_location.as_ref(), &a.name, a.value.as_ref()));
+            }
+            for a in worklet_attributes {
+                attrs.push(static_attr_item("worklet", a));
+            }
+            for a in generics {
+                attrs.push(static_attr_item("generic", a));
+            }
+            for a in extra_attr {
+                attrs.push(static_attr_item("extra-attr", a));
+            }
+            common(c, &mut attrs);
+            kids = nodes(children);
+        }
+        ElementKind::Pure { children, slot, slot_value_refs, .. } => {
+            kind = "pure";
+            if let Some((l, v)) = slot.as_ref() {
+                attrs.push(named_value("slot", l, v));
+            }
+            for a in slot_value_refs {
+                attrs.push(static_attr_item("slot-value", a));
+            }
+            kids = nodes(children);
+        }
+        ElementKind::For { list, item_name, index_name, key, children, .. } => {
+            kind = "for";
+            attrs.push(named_value("wx:for", &list.0, &list.1));
+            extra = json!({
+                "item": {"name_loc": loc(&item_name.0), "value": item_name.1.name.as_str(), "value_loc": loc(&item_name.1.location)},
+                "index": {"name_loc": loc(&index_name.0), "value": index_name.1.name.as_str(), "value_loc": loc(&index_name.1.location)},
+                "key": {"name_loc": loc(&key.0), "value": key.1.name.as_str(), "value_loc": loc(&key.1.location)},
+            });
+            kids = nodes(children);
+        }
+        ElementKind::If { branches, else_branch, .. } => {
+            kind = "if";
+            for (l, v, children) in branches {
+                kids.push(json!({"k": "branch", "cond": named_value("wx:if", l, v), "children": nodes(children)}));
+            }
+            if let Some((l, children)) = else_branch {
+                kids.push(json!({"k": "branch", "else_loc": loc(l), "children": nodes(children)}));
+            }
+        }
+        ElementKind::TemplateRef { target, data, .. } => {
+            kind = "template_ref";
+            attrs.push(named_value("is", &target.0, &target.1));
+            attrs.push(named_value("data", &data.0, &data.1));
+        }
+        ElementKind::Include { path, .. } => {
+            kind = "include";
+            attrs.push(json!({"k": "attr", "fam": "src", "children": [json!({"k": "attr_name_span", "loc": loc(&path.0), "fam": "src", "children": []}), str_name("static_attr_value", &path.1, json!({"fam": "src"}))]}));
+        }
+        ElementKind::Slot { name, values, common: c, .. } => {
+            kind = "slot";
+            attrs.push(named_value("name", &name.0, &name.1));
+            for a in values {
+                attrs.push(attr_item("slot-attr", a.prefix_location.as_ref(), &a.name, a.value.as_ref()));
+            }
+            common(c, &mut attrs);
+        }
+        #[allow(unreachable_patterns)]
+        _ => {
+            kind = "unclassified-element";
+        }
+    }
+    let mut o = item("element", &l, json!({"kind": kind, "tag_location": tl, "attrs": attrs}), kids);
+    if let (Some(o), Some(x)) = (o.as_object_mut(), extra.as_object()) {
+        for (k, v) in x {
+            o.insert(k.clone(), v.clone());
+        }
+    }
+    o
+}
+
+pub fn run_case(case: &J) -> J {
+    let id = case.get("id").cloned().unwrap_or(J::Null);
+    let src = case.get("src").and_then(|x| x.as_str()).unwrap_or("");
+    let path = case.get("path").and_then(|x| x.as_str()).unwrap_or("p");
+    match guarded("parse", || {
+        let (t, ps) = glass_easel_template_compiler::parse::parse(path, src);
+        let diags: Vec<J> = ps.warnings().map(diag_json).collect();
+        let g = &t.globals;
+        let imports: Vec<J> = g.imports.iter().map(|i| json!({"k": "import", "tag_location": tag_location(&i.tag_location), "children": [json!({"k": "attr_name_span", "loc": loc(&i.src_location), "fam": "src", "children": []}), str_name("static_attr_value", &i.src, json!({"fam": "src"}))]})).collect();
+        let includes: Vec<J> = g.includes.iter().map(|i| json!({"k": "include_decl", "tag_location": tag_location(&i.tag_location), "children": [str_name("static_attr_value", &i.src, json!({"fam": "src"}))]})).collect();
+        let scripts: Vec<J> = g
+            .scripts
+            .iter()
+            .map(|s| match s {
+                Script::Inline { tag_location: tl, module_location, module_name, content, content_location, .. } => json!({
+                    "k": "script", "inline": true, "tag_location": tag_location(tl), "module_attr_loc": loc(module_location),
+                    "children": [str_name("static_attr_value", module_name, json!({"fam": "module"})), item("script_content", content_location, json!({"content": content}), vec![])],
+                }),
+                Script::GlobalRef { tag_location: tl, module_location, module_name, src_location, src, .. } => json!({
+                    "k": "script", "inline": false, "tag_location": tag_location(tl), "module_attr_loc": loc(module_location), "src_attr_loc": loc(src_location),
+                    "children": [str_name("static_attr_value", module_name, json!({"fam": "module"})), str_name("static_attr_value", src, json!({"fam": "src"}))],
+                }),
+                #[allow(unreachable_patterns)]
+                _ => json!({"k": "unclassified-script", "children": []}),
+            })
+            .collect();
+        let subs: Vec<J> = g
+            .sub_templates
+            .iter()
+            .map(|d| json!({"k": "template_def", "tag_location": tag_location(&d.tag_location), "name_attr_loc": loc(&d.name_location), "name": str_name("static_attr_value", &d.name, json!({"fam": "name"})), "children": nodes(&d.content)}))
+            .collect();
+        json!({"diags": diags, "imports": imports, "includes": includes, "scripts": scripts, "sub_templates": subs, "content": nodes(&t.content)})
+    }) {
+        Ok(mut r) => {
+            r["id"] = id;
+            r["panics"] = json!([]);
+            r
+        }
+        Err(p) => json!({"id": id, "panics": [p]}),
+    }
 }
